@@ -22,7 +22,9 @@ ASSUMPTIONS = [
 MANIFEST = {"technique": 'runtime monitoring: reference summaries (schema by exact type, diff + reconstruction law) over generated corpora', "engine": 'reference-model monitor'}
 TIME_CAP = {"quick": 60, "thorough": 900}
 
-TYPED = [1, 1.0, True, 0, 0.0, False, 2, -1, -1.0, -2, -2.0, "1", "x", None, [1], [1, 2], [1.0], ["x"], 2.5]
+TYPED = [1, 1.0, True, 0, 0.0, False, 2, -1, -1.0, -2, -2.0, "1", "x", None, [1], [1, 2], [1.0], ["x"], 2.5,
+         # lists holding mappings: the same value written with its keys in either order, and a different one
+         [{"nx": 4, "ny": 8}], [{"ny": 8, "nx": 4}], [{"nx": 4, "ny": 9}]]
 
 
 def rand_sp(rng):
@@ -78,13 +80,30 @@ def gen_cases(ctx):
             yield {"sps": corpus, "seed": seed}
 
 
+class HD(dict):
+    """A mapping that occurs inside a list value, made hashable by its content (key order does not matter)."""
+
+    def __hash__(self):
+        import json
+
+        return hash(json.dumps(self, sort_keys=True, default=list))
+
+
+def tup2(v):
+    if isinstance(v, (list, tuple)):
+        return tuple(tup2(x) for x in v)
+    if isinstance(v, dict):
+        return HD({k: tup2(x) for k, x in v.items()})
+    return v
+
+
 def model_schema(sps, exclude_const):
     keys = {}
     for sp in sps:
         for k, v in model.flatten(sp).items():
             if isinstance(v, dict):
                 continue
-            keys.setdefault(k, []).append(query.tup(v))
+            keys.setdefault(k, []).append(tup2(v))
     out = {}
     for k, vals in keys.items():
         by_type = {}
@@ -97,7 +116,7 @@ def model_schema(sps, exclude_const):
 
 
 def norm_schema(schema):
-    return {k: {t: set(vs) for t, vs in v.items() if vs} for k, v in dict(schema).items()}
+    return {k: {t: {tup2(detup(x)) for x in vs} for t, vs in v.items() if vs} for k, v in dict(schema).items()}
 
 
 def schema_repr(s):
